@@ -99,6 +99,7 @@ func cloneTables(m map[string]*lTable) map[string]*lTable {
 // expectation for one file.
 type lintExpect struct {
 	code       string // DS102 | DS103
+	key        string // resource: "t" or "t.c"
 	what       string
 	start, end int  // byte range of the causing statement (group)
 	anywhere   bool // position taken from the generated file (migrate diff): any statement
@@ -108,6 +109,20 @@ type lintFile struct {
 	name   string
 	expect []lintExpect
 	desc   []string
+	// events lists, per resource ("t" or "t.c"), what this file does to it, in order ("add" / "drop"),
+	// prefixed by whether the resource existed before the file; drops records where each drop is.
+	events map[string][]string
+	drops  []struct {
+		start, end int
+		key        string
+	}
+}
+
+func (f *lintFile) seq(key string) string {
+	if len(f.events[key]) == 0 {
+		return "unknown"
+	}
+	return strings.Join(f.events[key], "-")
 }
 
 // C18 — lint flags every destructive migration and no purely additive one.
@@ -142,7 +157,46 @@ func C18(r *simkit.Run) {
 	}
 	for f := 1; f <= steps; f++ {
 		before := cloneTables(tables) // what existed before this file
-		lf := &lintFile{}
+		lf := &lintFile{events: map[string][]string{}}
+		ev := func(key, what string) {
+			if len(lf.events[key]) == 0 {
+				pre := "new"
+				if i := strings.IndexByte(key, '.'); i >= 0 {
+					if bt, ok := before[key[:i]]; ok && bt.has(key[i+1:]) {
+						pre = "pre"
+					}
+				} else if _, ok := before[key]; ok {
+					pre = "pre"
+				}
+				lf.events[key] = append(lf.events[key], pre+":"+what)
+				return
+			}
+			lf.events[key] = append(lf.events[key], what)
+		}
+		// A resource takes part in at most three events per file; an operation on a resource that
+		// already has events is allowed only for the plain forms (so that sequences stay legible).
+		busy := func(keys ...string) bool {
+			for _, k := range keys {
+				if len(lf.events[k]) > 0 {
+					return true
+				}
+			}
+			return false
+		}
+		room := func(key string, n int) bool { return len(lf.events[key])+n <= 3 }
+		tableKeys := func(tb *lTable) []string {
+			ks := []string{tb.Name}
+			for _, c := range tb.Cols {
+				ks = append(ks, tb.Name+"."+c.Name)
+			}
+			return ks
+		}
+		dropAt := func(s, e int, key string) {
+			lf.drops = append(lf.drops, struct {
+				start, end int
+				key        string
+			}{s, e, key})
+		}
 		version := Version(f)
 		if t.Chance("derived-by-migrate-diff", 1, 3) && f > 1 {
 			// Let `migrate diff` write the file for one schema edit.
@@ -218,7 +272,7 @@ func C18(r *simkit.Run) {
 			nops := t.Range("ops", 1, 3)
 			for i := 0; i < nops; i++ {
 				tb := pickTable(tables)
-				op := t.Weighted("op", 3, 2, 2, 2, 2, 2, 1, 1)
+				op := t.Weighted("op", 3, 2, 2, 2, 2, 2, 1, 1, 1, 1, 1)
 				if tb == nil {
 					op = 0
 				}
@@ -228,11 +282,15 @@ func C18(r *simkit.Run) {
 					tables[nt.Name] = nt
 					created[nt.Name] = true
 					emit(nt.createSQL(nt.Name))
+					for _, k := range tableKeys(nt) {
+						ev(k, "add")
+					}
 					lf.desc = append(lf.desc, "create-table "+nt.Name)
 				case 1:
 					c := lCol{Name: fmt.Sprintf("c%d", next()), Type: "text"}
 					tb.Cols = append(tb.Cols, c)
 					emit(fmt.Sprintf("ALTER TABLE `%s` ADD COLUMN `%s` text NULL", tb.Name, c.Name))
+					ev(tb.Name+"."+c.Name, "add")
 					lf.desc = append(lf.desc, "add-column "+tb.Name+"."+c.Name)
 				case 2:
 					var cs []lCol
@@ -248,9 +306,19 @@ func C18(r *simkit.Run) {
 					emit(fmt.Sprintf("CREATE INDEX `i%d` ON `%s` (`%s`)", next(), tb.Name, c.Name))
 					lf.desc = append(lf.desc, "create-index "+tb.Name+"."+c.Name)
 				case 3: // DROP TABLE
+					if !room(tb.Name, 1) {
+						continue
+					}
 					s, e := emit(fmt.Sprintf("DROP TABLE `%s`", tb.Name))
-					if _, existed := before[tb.Name]; existed {
-						lf.expect = append(lf.expect, lintExpect{code: "DS102", what: "table " + tb.Name, start: s, end: e})
+					pre := len(lf.events[tb.Name]) == 0 || strings.HasPrefix(lf.events[tb.Name][0], "pre:")
+					_, existed := before[tb.Name]
+					// The instance being dropped existed before the file iff the table did and was not
+					// already dropped (and re-created) earlier in this file.
+					preInstance := existed && pre && !contains(lf.events[tb.Name], "drop")
+					ev(tb.Name, "drop")
+					dropAt(s, e, tb.Name)
+					if preInstance {
+						lf.expect = append(lf.expect, lintExpect{code: "DS102", key: tb.Name, what: "table " + tb.Name, start: s, end: e})
 						lf.desc = append(lf.desc, "DROP TABLE "+tb.Name)
 					} else {
 						lf.desc = append(lf.desc, "drop temporary table "+tb.Name+" created in this file")
@@ -265,14 +333,18 @@ func C18(r *simkit.Run) {
 							break
 						}
 					}
-					if k < 0 || indexed(body.String(), files, w, tb.Name, tb.Cols[k].Name) {
+					if k < 0 || indexed(body.String(), files, w, tb.Name, tb.Cols[k].Name) || !room(tb.Name+"."+tb.Cols[k].Name, 1) {
 						continue
 					}
 					c := tb.Cols[k]
+					ck := tb.Name + "." + c.Name
 					s, e := emit(fmt.Sprintf("ALTER TABLE `%s` DROP COLUMN `%s`", tb.Name, c.Name))
 					bt, existed := before[tb.Name]
-					if !c.Virtual && existed && bt.has(c.Name) {
-						lf.expect = append(lf.expect, lintExpect{code: "DS103", what: "column " + tb.Name + "." + c.Name, start: s, end: e})
+					preInstance := existed && bt.has(c.Name) && !contains(lf.events[ck], "drop") && !contains(lf.events[tb.Name], "drop")
+					ev(ck, "drop")
+					dropAt(s, e, ck)
+					if !c.Virtual && preInstance {
+						lf.expect = append(lf.expect, lintExpect{code: "DS103", key: ck, what: "column " + tb.Name + "." + c.Name, start: s, end: e})
 					}
 					if c.Virtual {
 						r.Probe("virtual-column-dropped")
@@ -286,11 +358,12 @@ func C18(r *simkit.Run) {
 							cs = append(cs, i)
 						}
 					}
-					if len(cs) == 0 {
+					if len(cs) == 0 || busy(tableKeys(tb)...) {
 						continue
 					}
 					k := cs[t.Draw("omit-col", len(cs))]
 					c := tb.Cols[k]
+					ev(tb.Name+"."+c.Name, "drop")
 					nt := &lTable{Name: tb.Name, Cols: append(append([]lCol(nil), tb.Cols[:k]...), tb.Cols[k+1:]...)}
 					var keep []string
 					for _, x := range nt.Cols {
@@ -305,13 +378,19 @@ func C18(r *simkit.Run) {
 						fmt.Sprintf("ALTER TABLE `new_%s` RENAME TO `%s`", tb.Name, tb.Name),
 						"PRAGMA foreign_keys = on")
 					bt, existed := before[tb.Name]
+					dropAt(s, e, tb.Name+"."+c.Name)
 					if existed && bt.has(c.Name) {
-						lf.expect = append(lf.expect, lintExpect{code: "DS103", what: "column " + tb.Name + "." + c.Name, start: s, end: e})
+						lf.expect = append(lf.expect, lintExpect{code: "DS103", key: tb.Name + "." + c.Name, what: "column " + tb.Name + "." + c.Name, start: s, end: e})
 					}
 					tables[tb.Name] = nt
 					lf.desc = append(lf.desc, fmt.Sprintf("rebuild of %s omitting %s", tb.Name, c.Name))
 					r.Probe("hand-written-rebuild-omitting-column")
 				case 6: // additive rebuild (adds a column)
+					if busy(tableKeys(tb)...) {
+						continue
+					}
+					ev(tb.Name, "rebuild")
+					ev(tb.Name+"."+fmt.Sprintf("c%d", seq+1), "add")
 					nt := &lTable{Name: tb.Name, Cols: append(append([]lCol(nil), tb.Cols...), lCol{Name: fmt.Sprintf("c%d", next()), Type: "integer"})}
 					var keep []string
 					for _, x := range tb.Cols {
@@ -328,9 +407,67 @@ func C18(r *simkit.Run) {
 					tables[tb.Name] = nt
 					lf.desc = append(lf.desc, "additive rebuild of "+tb.Name)
 					r.Probe("additive-rebuild")
+				case 8: // drop an existing column and add a column of the same name again (e.g. to change its type)
+					k := -1
+					for i := len(tb.Cols) - 1; i >= 1; i-- {
+						if strings.HasPrefix(tb.Cols[i].Name, "c") && !tb.Cols[i].Virtual {
+							k = i
+							break
+						}
+					}
+					if k < 0 || indexed(body.String(), files, w, tb.Name, tb.Cols[k].Name) || !room(tb.Name+"."+tb.Cols[k].Name, 2) {
+						continue
+					}
+					c := tb.Cols[k]
+					ck := tb.Name + "." + c.Name
+					s, e := emit(fmt.Sprintf("ALTER TABLE `%s` DROP COLUMN `%s`", tb.Name, c.Name))
+					emit(fmt.Sprintf("ALTER TABLE `%s` ADD COLUMN `%s` integer NULL", tb.Name, c.Name))
+					bt, existed := before[tb.Name]
+					preInstance := existed && bt.has(c.Name) && !contains(lf.events[ck], "drop") && !contains(lf.events[tb.Name], "drop")
+					ev(ck, "drop")
+					ev(ck, "add")
+					dropAt(s, e, ck)
+					if preInstance {
+						lf.expect = append(lf.expect, lintExpect{code: "DS103", key: ck, what: "column " + tb.Name + "." + c.Name + " (re-added afterwards)", start: s, end: e})
+					}
+					tb.Cols[k].Type = "integer"
+					lf.desc = append(lf.desc, fmt.Sprintf("DROP COLUMN %s.%s then ADD COLUMN of the same name", tb.Name, c.Name))
+					r.Probe("column-dropped-and-re-added")
+				case 9: // drop an existing table and create a table of the same name again
+					if !room(tb.Name, 2) {
+						continue
+					}
+					nt := &lTable{Name: tb.Name, Cols: []lCol{{Name: "id", Type: "integer"}, {Name: fmt.Sprintf("c%d", next()), Type: "text"}}}
+					s, e := emit(fmt.Sprintf("DROP TABLE `%s`", tb.Name))
+					emit(nt.createSQL(nt.Name))
+					_, existed := before[tb.Name]
+					preInstance := existed && !contains(lf.events[tb.Name], "drop")
+					ev(tb.Name, "drop")
+					ev(tb.Name, "add")
+					for _, nc := range nt.Cols[1:] {
+						ev(nt.Name+"."+nc.Name, "add")
+					}
+					dropAt(s, e, tb.Name)
+					if preInstance {
+						lf.expect = append(lf.expect, lintExpect{code: "DS102", key: tb.Name, what: "table " + tb.Name + " (re-created afterwards)", start: s, end: e})
+					}
+					tables[tb.Name] = nt
+					lf.desc = append(lf.desc, "DROP TABLE "+tb.Name+" then CREATE TABLE of the same name")
+					r.Probe("table-dropped-and-re-created")
+				case 10: // a temporary column within the file
+					c := lCol{Name: fmt.Sprintf("x%d", next()), Type: "text"}
+					s, e := emit(fmt.Sprintf("ALTER TABLE `%s` ADD COLUMN `%s` text NULL", tb.Name, c.Name), fmt.Sprintf("ALTER TABLE `%s` DROP COLUMN `%s`", tb.Name, c.Name))
+					ev(tb.Name+"."+c.Name, "add")
+					ev(tb.Name+"."+c.Name, "drop")
+					dropAt(s, e, tb.Name+"."+c.Name)
+					lf.desc = append(lf.desc, "add and drop temporary column "+tb.Name+"."+c.Name)
+					r.Probe("temporary-column-added-and-dropped")
 				default: // temporary object within the file
 					tmp := &lTable{Name: fmt.Sprintf("tmp%d", next()), Cols: []lCol{{Name: "id", Type: "integer"}, {Name: "x", Type: "text"}}}
-					emit(tmp.createSQL(tmp.Name), fmt.Sprintf("DROP TABLE `%s`", tmp.Name))
+					s, e := emit(tmp.createSQL(tmp.Name), fmt.Sprintf("DROP TABLE `%s`", tmp.Name))
+					ev(tmp.Name, "add")
+					ev(tmp.Name, "drop")
+					dropAt(s, e, tmp.Name)
 					lf.desc = append(lf.desc, "create and drop temporary table "+tmp.Name)
 					r.Probe("temporary-table-created-and-dropped")
 				}
@@ -415,13 +552,19 @@ func C18(r *simkit.Run) {
 				if e.anywhere {
 					how = "migrate-diff"
 				}
-				r.Fail(propC18, "destructive-flagged", "missed-destructive/"+e.code+"/"+how, "file %s (%s) drops %s, which existed before the file, but lint reports no %s on the causing statement (bytes %d-%d); diagnostics: %v", f.name, strings.Join(f.desc, "; "), e.what, e.code, e.start, e.end, ds)
+				r.Fail(propC18, "destructive-flagged", "missed-destructive/"+e.code+"/"+how+"/seq="+f.seq(e.key), "file %s (%s) drops %s, which existed before the file, but lint reports no %s on the causing statement (bytes %d-%d); diagnostics: %v", f.name, strings.Join(f.desc, "; "), e.what, e.code, e.start, e.end, ds)
 				return
 			}
 		}
 		for i, d := range ds {
 			if !used[i] {
-				r.Fail(propC18, "additive-not-flagged", "false-destructive/"+d.Code, "file %s (%s): lint reports %s %q at %d, but nothing that existed before the file is dropped there", f.name, strings.Join(f.desc, "; "), d.Code, d.Text, d.Pos)
+				key := ""
+				for _, dr := range f.drops {
+					if d.Pos >= dr.start && d.Pos < dr.end {
+						key = dr.key
+					}
+				}
+				r.Fail(propC18, "additive-not-flagged", "false-destructive/"+d.Code+"/seq="+f.seq(key), "file %s (%s): lint reports %s %q at %d, but nothing that existed before the file is dropped there", f.name, strings.Join(f.desc, "; "), d.Code, d.Text, d.Pos)
 				return
 			}
 		}
@@ -455,6 +598,15 @@ func indexed(cur string, files []*lintFile, w *World, table, col string) bool {
 	for n, c := range w.DirSnapshot() {
 		_ = n
 		if strings.Contains(c, needle) {
+			return true
+		}
+	}
+	return false
+}
+
+func contains(ss []string, what string) bool {
+	for _, s := range ss {
+		if s == what || strings.HasSuffix(s, ":"+what) {
 			return true
 		}
 	}
